@@ -171,6 +171,8 @@ extern __thread int64_t hxa_live_blocks;
 extern __thread int64_t hxa_live_bytes;
 extern __thread uint64_t hxa_alloc_count;     /* allocations attempted */
 extern __thread uint64_t hxa_fail_at;         /* 0 = never; else fail the allocation with this ordinal */
+extern __thread uint64_t hxa_fail_at2;        /* optional second failing ordinal */
+extern __thread void *hxa_failed_site2;
 extern __thread void *hxa_failed_site;        /* return address of the failed allocation */
 extern __thread int hxa_failed_kind;
 extern __thread int hxa_counting;             /* only count while inside a run */
